@@ -11,6 +11,8 @@ where
 {
     set_budget(1);
     let Ok(mut bump) = Bump::<VA, St>::try_new() else { return };
+    // never run Drop for Bump on early-return paths (it walks the chunk list and calls the base allocator: pure cost)
+    let mut bump = core::mem::ManuallyDrop::new(bump);
     set_budget(0);
     let c1 = bump.stats().current_chunk().unwrap();
     let w1 = Win::of(c1);
@@ -119,7 +121,6 @@ where
     let win = if w1.holds(g_addr) { w1 } else { wg };
     assert!(unsafe { win.read(g_addr + g_off) } == g_val, "C14/C02: block allocated through the guard changed");
     assert!(unsafe { w1.read(addr(p) + ip) } == vp, "C14/C02: pre-claim block changed");
-    core::mem::forget(bump);
     kani::cover!(true, "END: harness ran to completion");
 }
 
@@ -146,7 +147,7 @@ claim_harness!(claim_up16_b0, S<16, true>, 0);
 fn claim_unallocated() {
     type St = S<1, true, false>;
     let up: bool = kani::any();
-    let bump: Bump<VA, St> = Bump::unallocated();
+    let bump = core::mem::ManuallyDrop::new(Bump::<VA, St>::unallocated());
     set_budget(0);
     let lg = any_layout(8, 3);
     kani::assume(lg.size() > 0);
@@ -155,7 +156,11 @@ fn claim_unallocated() {
         let guard = bump.claim();
         assert!(bump.is_claimed(), "C14: is_claimed false on a claimed unallocated arena");
         assert!(bump.allocate(lg).is_err(), "C14: allocation through a claimed unallocated handle succeeded");
+        let n: usize = kani::any();
+        assert!(bump.try_reserve(n).is_err(), "C14: reserve through a claimed handle (GUARANTEED_ALLOCATED = false) succeeded");
+        assert!(bump.is_claimed(), "C14: a request through the claimed handle ended the claim");
         assert!(bump.stats().count() == 0, "C14: claimed unallocated handle reports chunks");
+        assert!(calls() == 0, "C14: a request through a claimed handle reached the base allocator");
         set_budget(1);
         let Ok(g) = guard.allocate(lg) else {
             core::mem::forget(guard);
@@ -173,7 +178,6 @@ fn claim_unallocated() {
         assert!(disjoint(addr(q.cast()), l2.size(), g_addr, lg.size()), "C14/C01: allocation after the claim overlaps the guard's block");
         kani::cover!(true, "allocated after the claim");
     }
-    core::mem::forget(bump);
     kani::cover!(true, "END: harness ran to completion");
 }
 
@@ -184,6 +188,8 @@ fn claim_unallocated() {
 fn panic_claim_twice() {
     set_budget(1);
     let Ok(bump) = Bump::<VA, S<1, true>>::try_new() else { return };
+    // never run Drop for Bump on early-return paths (it walks the chunk list and calls the base allocator: pure cost)
+    let mut bump = core::mem::ManuallyDrop::new(bump);
     set_budget(0);
     let g1 = bump.claim();
     kani::cover!(true, "REACH: first claim taken");
@@ -200,6 +206,8 @@ fn panic_claim_twice() {
 fn panic_alloc_on_claimed() {
     set_budget(1);
     let Ok(bump) = Bump::<VA, S<1, true>>::try_new() else { return };
+    // never run Drop for Bump on early-return paths (it walks the chunk list and calls the base allocator: pure cost)
+    let mut bump = core::mem::ManuallyDrop::new(bump);
     set_budget(0);
     let g1 = bump.claim();
     kani::cover!(true, "REACH: claim taken");
